@@ -86,9 +86,12 @@ func ReadOne(r io.Reader) Outcome {
 			return Outcome{Kind: "panic", Pan: pi}
 		}
 		return o
-	case err != nil && isNilPacket(p):
+	case err != nil && p == nil:
 		return Outcome{Kind: "error", Err: err}
 	}
+	// Everything else is the wrong shape: (nil, nil), (packet, error) - and an
+	// interface value that is not nil but holds a nil pointer next to an error:
+	// "a nil packet" means the caller's `p != nil` is false.
 	return Outcome{Kind: "shape", Err: err, P: p}
 }
 
